@@ -17,10 +17,13 @@ META = {
             "(who-may-call), or belong to a frozen list of constructors/cleanup routines that act on a new or temporary location "
             "(Builder bootstrap, deepcopy to a new path, dump to an explicit path, removal of the temporary directory). (3) the "
             "in-memory store of Inventory is only assigned after the guard; readers assert_open; close() dumps only when not "
-            "read-only and still open.",
+            "read-only and still open. (4) every store entry point (item assignment of a stored and of a new point, load_recipes of "
+            "stored and new recipes, direct recipe assignment, update(), every metadata setter, dump()) is evaluated on a model file "
+            "system for a read-only, a closed writable and a closed read-only EKO, in a fresh session and after the items were looked "
+            "up (present in the in-memory caches): each attempt raises ReadOnlyOperator / ClosedOperator and every file is unchanged.",
     "note": "Structural: the byte-for-byte statement follows because no write to the archive or its working directory can be "
             "reached without passing the guard, and the guard's truth table is exhaustive. OS behaviour is not modelled.",
-    "technique": "guard-dominance / who-may-call rules on the AST + exhaustive partial evaluation of the guard's truth table",
+    "technique": "guard-dominance / who-may-call rules on the AST + exhaustive partial evaluation of the guard's truth table + partial evaluation of every store entry point on a model file system",
     "engine": "sa",
 }
 
@@ -161,7 +164,102 @@ def run(chk):
         if isinstance(st, ast.If) and any(c in list(_calls(st)) for c in dump_calls):
             ok = ok and "readonly" in ast.unparse(st.test) and ast.unparse(st.test).startswith("not")
     chk.decide(ok, "close-dumps-only-when-writeable", fclose.qname, "EKO.close dumps without testing `not readonly`", where=fclose.where)
+    _semantic(chk, src)
     chk.note(truth_table_rows=n_rows, fs_sites=n_sites, exempt=EXEMPT, files=["src/eko/io/access.py", "src/eko/io/struct.py",
                                                                               "src/eko/io/inventory.py", "src/eko/io/metadata.py"])
     chk.explanation = ("Exhaustive truth table of the access guards and guard-dominance of every file-system effect under eko/io "
                        "(who-may-call for unguarded helpers).")
+
+
+def _semantic(chk, src):
+    """Every store entry point of an EKO, evaluated on a model file system for a read-only EKO, a closed writable EKO and a closed
+    read-only EKO, before and after the item concerned was looked up (so that it sits in the in-memory cache): the attempt must
+    raise the permission error and the files must be unchanged."""
+    from fractions import Fraction
+
+    from .. import dag, fsmodel
+    from ..arr import Arr
+    from ..pe import Bound, Closure, Obj
+
+    ekoc = src.cls("eko.io.struct.EKO")
+    acls = src.cls("eko.io.access.AccessConfigs")
+    ocls = src.cls("eko.io.items.Operator")
+    mdc = src.cls("eko.io.metadata.Metadata")
+    evc = src.cls("eko.io.items.Evolution")
+    mtc = src.cls("eko.io.items.Matching")
+
+    def bound(o, name):
+        m = src.find_method(o.cls, name)
+        return Bound(o, Closure(m, m.node, None, m.module, m.qname))
+
+    def operator(tag):
+        o = Obj(ocls)
+        o.attrs.update(operator=Arr.from_nested([[[[dag.sym(f"{tag}{a}{i}{b}{j}") for j in range(2)] for b in range(2)] for i in range(2)] for a in range(2)]),
+                       error=None)
+        return o
+
+    ep_old, ep_new = (Fraction(100), 5), (Fraction(400), 5)
+    n = 0
+    for state, (ro, op_) in {"read-only": (True, True), "closed (was writable)": (False, False), "closed read-only": (True, False)}.items():
+        for warmed in (False, True):
+            fs = fsmodel.FS()
+            pe = PE(src)
+            fsmodel.install(pe, fs)
+            work = fs.path("/work")
+            work.mkdir()
+            fs.path("/out").mkdir()
+            wacc = Obj(acls)
+            wacc.attrs.update(path=fs.path("/out/a.tar"), readonly=False, open=True)
+            invs = pe.call("eko.io.struct.inventories", [work, wacc])
+            for inv in invs.values():
+                inv.attrs["path"].mkdir(parents=True, exist_ok=True)
+            md = Obj(mdc)
+            md.attrs.update(origin=(Fraction(2), 4), xgrid="XG", _path=work, version="0", data_version=3)
+            writer = pe.new_object(ekoc, [], dict(invs, metadata=md, access=wacc))
+            r_ev = pe.instantiate(evc.qname, [Fraction(4), Fraction(100), 5, False])
+            r_ma = pe.instantiate(mtc.qname, [Fraction(25), 5, False])
+            pe.apply(bound(writer, "__setitem__"), [ep_old, operator("A")], {})
+            pe.apply(bound(writer, "load_recipes"), [[r_ev, r_ma]], {})
+            pe.apply(bound(md, "update"), [], {})
+            pe.apply(bound(writer, "dump"), [], {})
+            # the session under test: a new object on the same directory with the permissions of the state
+            acc = Obj(acls)
+            acc.attrs.update(path=fs.path("/out/a.tar"), readonly=ro, open=True)
+            md2 = Obj(mdc)
+            md2.attrs.update(dict(md.attrs))
+            eko = pe.new_object(ekoc, [], dict(pe.call("eko.io.struct.inventories", [work, acc]), metadata=md2, access=acc))
+            pe.apply(bound(eko.attrs["operators"], "sync"), [], {})
+            if warmed:
+                # look the items up first: they are now present in the in-memory caches
+                pe.apply(bound(eko, "__getitem__"), [ep_old], {})
+                pe.apply(bound(eko.attrs["recipes"], "__getitem__"), [r_ev], {})
+                pe.apply(bound(eko.attrs["recipes_matching"], "__getitem__"), [r_ma], {})
+            acc.attrs["open"] = op_
+            before = dict(fs.files)
+            attempts = {
+                "eko[stored point] = operator": lambda: pe.apply(bound(eko, "__setitem__"), [ep_old, operator("B")], {}),
+                "eko[new point] = operator": lambda: pe.apply(bound(eko, "__setitem__"), [ep_new, operator("C")], {}),
+                "load_recipes([stored evolution recipe])": lambda: pe.apply(bound(eko, "load_recipes"), [[r_ev]], {}),
+                "load_recipes([stored matching recipe])": lambda: pe.apply(bound(eko, "load_recipes"), [[r_ma]], {}),
+                "load_recipes([new recipe])": lambda: pe.apply(bound(eko, "load_recipes"), [[pe.instantiate(evc.qname, [Fraction(4), Fraction(9), 4, False])]], {}),
+                "recipes[stored recipe] = None": lambda: pe.apply(bound(eko.attrs["recipes"], "__setitem__"), [r_ev, None], {}),
+                "update()": lambda: pe.apply(bound(eko, "update"), [], {}),
+                **{f"{nm.split('@')[0]} = value": (lambda m_=m_: pe.apply(Bound(eko, Closure(m_, m_.node, None, m_.module, m_.qname)), ["NEWVALUE"], {}))
+                   for nm, m_ in ekoc.methods.items() if "setter" in nm},
+                "dump()": lambda: pe.apply(bound(eko, "dump"), [], {}),
+            }
+            for what, go in attempts.items():
+                inst = f"{state},{'after looking the items up' if warmed else 'fresh session'},{what}"
+                raised = None
+                try:
+                    go()
+                except PERaise as e:
+                    raised = e.etype
+                n += 1
+                same = fs.files == before
+                chk.decide(raised in ("ReadOnlyOperator", "ClosedOperator") and same, "store-attempts-raise-and-leave-the-files-alone", ekoc.qname,
+                           f"{inst}: raised {raised}; files unchanged: {same} - every attempt to store in a read-only or closed EKO must raise the "
+                           f"permission error and touch nothing", where=ekoc.where, instance=inst, how="PE on a model file system")
+                fs.files.clear()
+                fs.files.update(before)
+    chk.floor("store attempts on read-only / closed EKOs", n, 50)
